@@ -43,6 +43,7 @@ func (r *Report) Add(key, msg string, replay any) {
 }
 
 type Ctx struct {
+	known    *KnownFile
 	Prop     string
 	Tier     string
 	Seed     int64
@@ -170,6 +171,14 @@ func LoadKnown(verif string) *KnownFile {
 		os.Exit(2)
 	}
 	return k
+}
+
+// IsKnownKey: the key is listed for a recorded (not repaired) finding of this property.
+func (c *Ctx) IsKnownKey(key string) bool {
+	if c.known == nil {
+		c.known = LoadKnown(c.Verif)
+	}
+	return c.known.match(c.Prop, key) != nil
 }
 
 func (k *KnownFile) match(prop, key string) *KnownEntry {
